@@ -457,7 +457,7 @@ def cases(tier):
     for r in ('act', 'b') + (('2n',) if th else ()):
         out.append(Case('linear_in_mass[%s]' % r, _linear_mass_case(r), max_paths=mp, timeout_ms=to))
     out.append(Case('fast_and_epithermal_switches', _fast_and_epithermal_case, max_paths=mp, timeout_ms=to))
-    for ftxt in (['Co', 'C[13]O2', 'Co[59]Co2', 'Li{+}H{-}'] if not th else ['Co', 'C[13]O2', 'Co[59]Co2', 'Na{+}Cl{-}', 'DHO', 'NaCl', 'Fe[58]2O3', 'Au', 'H2O', 'Fe[56]{2+}O{2-}']):
+    for ftxt in (['Co', 'C[13]O2', 'Co[59]Co2', 'Li{+}H{-}', 'LiLi{+}H{-}'] if not th else ['Co', 'C[13]O2', 'Co[59]Co2', 'Na{+}Cl{-}', 'LiLi{+}H{-}', 'NaNa{+}Cl{-}', 'DHO', 'NaCl', 'Fe[58]2O3', 'Au', 'H2O', 'Fe[56]{2+}O{2-}']):
         out.append(Case('sample[%s]' % ftxt, _sample_case(ftxt), max_paths=mp * 4, timeout_ms=to, nsamples=1))
     out.append(Case('rows_satisfy_generic_assumptions', None, custom=_rows_case))
     out.append(Case('real_rows_high_precision_ground', None, custom=_hp_rows_case, budget_s=600))
